@@ -104,7 +104,7 @@ static void output_byte(LHANewDecoder *decoder, uint8_t *buf, size_t *buf_len, u
 	CHECK(head == ((g_pos0 + steps) & (RING - 1)), "C01 H01.cmd: head = initial position + bytes appended so far (mod RING)");
 	ASSUME(head == ((g_pos0 + steps) & (RING - 1)));      /* proved just above: lemma for the following checks */
 	if (g_is_copy) {
-		CHECK(b == decoder->ringbuf[(g_pos0 + RING - g_d - 1 + steps) % RING], "C01 H01.cmd: each copy step appends the byte d+1 behind the head of the current window");
+		CHECK(b == decoder->ringbuf[(head + RING - 1 - g_d) & (RING - 1)], "C01 H01.cmd: each copy step appends the byte d+1 behind the head of the current window");
 	} else {
 		CHECK(b == (u8) g_code, "C01 H01.cmd: literal step appends the literal");
 	}
@@ -134,6 +134,17 @@ void harness_outbyte(void)
 	CHECK(dec.ringbuf_pos == (pos0 + 1) % RING, "C01 H01.cmd: head advances by one mod RING");
 	if (pos0 == RING - 1) WITNESS("head wraps");
 	WITNESS("end");
+}
+#endif
+
+#ifdef STUB_OFFSET
+/* distance decoding is verified separately (harness_offcode); here the distance is an arbitrary value < RING */
+static unsigned offcode_calls;
+static int read_offset_code(LHANewDecoder *decoder)
+{
+	(void) decoder;
+	++offcode_calls;
+	return (int) g_d;
 }
 #endif
 
